@@ -196,7 +196,7 @@ prop("C04", ["det_loop_state_reader", "det_shared_state_reader", "ring_marker_te
      "whether nodes, edges and orders are the ones the grammar denotes: index arithmetic over the pattern string (simultaneous branch closings, "
      "unbounded %nn digits) has no structural witness in reach",
      floors={"DET.loop-state": 2, "DET.shared-state": 8, "TOK.ring-marker-text": 1, "EXC.raise-inventory": 6, "PROV.after-branch-order": 2, "SENT.order-zero": 20, "TAB.reader-symbols": 2, "DA.reader": 5, "SIB.S2-ring-handlers": 3, "PROV.ring-edges": 5, "PROV.node-attributes": 4})
-prop("C05", ["det_loop_state_reader", "da_reader", "trip_multiplier", "sib_multiplier_scans", "sent_anchor_key", "sent_order_zero", "prov_after_branch_order"],
+prop("C05", ["det_loop_state_reader", "da_reader", "trip_multiplier", "sib_multiplier_scans", "sent_anchor_key", "sent_order_zero", "prov_after_branch_order", "prov_node_attributes"],
      "definite assignment in the branch expansion block (base_anchor); trip counts of node loop, recipe entries, _expand_branch and the branch loop "
      "(multiplier - 1); both multiplier number scans stop at the same token set including the order symbols",
      "isomorphism of shorthand and longhand for nested anchors (prev_node + offset arithmetic), bond orders between copies",
